@@ -132,7 +132,7 @@ theorem C14_clientHello_fixed_size (env : Env) (f tid : Nat) (r : Bytes) (v : Va
     generalize readN (env.padTarget - ((r.length - r2.length : Nat) : Int)) r2 = p at hr
     obtain ⟨pad, r3⟩ := p
     intro h
-    simp only [R.res_bind, R.res_tick, ok_bind] at h
+    simp only at h
     split at h
     · simp at h
     · rename_i hpad
